@@ -452,7 +452,7 @@ func init() {
 		e.assume(eq(eq(er.Tag, intLit(0)), ok))
 		return &TupleV{Elems: []SV{&Scalar{T: v, Ty: tup.At(0).Type()}, er}}
 	}
-	for _, n := range []string{"time.Parse", "time.Now", "log.Printf",
+	for _, n := range []string{"time.Parse", "log.Printf",
 		"fmt.Sprint", "(time.Duration).String", "time.ParseDuration"} {
 		pure(n)
 	}
@@ -724,6 +724,12 @@ func init() {
 		e.assume(implies(le(d, intLit(0)), eq(r, t)))
 		e.assume(implies(lt(intLit(0), d), and(le(r, t), lt(sub(t, r), d), eq(sub(r, zero), app(SInt, "*", d, q)))))
 		return tm(r, scal(args[0].(*StructV).Fields[1]), x.Type())
+	}
+	// the clock: an arbitrary instant after the zero time (year 1)
+	externs["time.Now"] = func(e *Exec, st *BState, x *ssa.Call, args []SV) SV {
+		ns := e.fresh("time.Now.ns", SInt)
+		e.assume(lt(bigLit("(- 62135596800000000000)"), ns))
+		return tm(ns, e.fresh("time.Now.aux", SInt), x.Type())
 	}
 	externs["(time.Time).IsZero"] = func(e *Exec, st *BState, x *ssa.Call, args []SV) SV {
 		return &Scalar{T: eq(nsOf(args[0]), bigLit("(- 62135596800000000000)")), Ty: x.Type()}
